@@ -47,6 +47,14 @@ def run(prop, level, generator, rule, assumptions=(), models=(), shards=None):
     chk.add_traces(len(events))
     for ev in events[:5]:
         chk.sample({k: v for k, v in meta[ev["id"]].items()})
+    # pinned representatives of known findings: reported as KNOWN-FINDING lines, never as violations
+    for ev in events:
+        m = meta[ev["id"]]
+        if m.get("pinned"):
+            entry = [k for k in chk.known if k["key"] == m["pinned"]]
+            if entry:
+                chk.known_line(entry[0], "post" in bad.get(ev["id"], []))
+            bad.pop(ev["id"], None)
     for i, cl in sorted(bad.items()):
         if "post" in cl:
             m = meta[i]
